@@ -228,25 +228,16 @@ def _kind(cx, f: FuncInfo, within: ast.AST, var: str) -> str:
     return "other"
 
 
-def rule_r5(cx) -> None:
+def rule_r5(cx) -> bool:
+    """Returns whether the module / import list handed to the graph depends on the limit at all."""
     from .c09 import ENTRIES, ENTRY_MODULE, GRAPH_CLASS
 
     res, repo, T = cx.res, cx.repo, cx.T
-    sites: list[tuple[FuncInfo, ast.Call]] = []
-    for f in repo.all_functions():
-        if isinstance(f.node, ast.Lambda) or (f.cls is not None and any(c == cx.g for c in repo.mro(f.cls))):
-            continue
-        for c in own_nodes(f.node):
-            if isinstance(c, ast.Call):
-                try:
-                    ci = T.ctor_class(f, c)
-                except Exception:  # noqa: BLE001
-                    ci = None
-                if ci is not None and any(k == cx.g for k in repo.mro(ci)):
-                    sites.append((f, c))
+    sites = cx.ctor_sites()
     if not sites:
         res.observe(f"C09.R5: no construction of {GRAPH_CLASS} found in src (nothing to decide)")
-        return
+        return False
+    depends = False
     em = repo.modules.get(ENTRY_MODULE)
     entry = em.functions.get(ENTRIES[0]) if em is not None else None
 
@@ -270,8 +261,15 @@ def rule_r5(cx) -> None:
             return call.args[i] if i < len(call.args) and not any(isinstance(a, ast.Starred) for a in call.args[: i + 1]) else None
 
         a_mod, a_imp, a_lim = arg(cx.modules_param), arg(cx.imports_param), arg(cx.limit_param)
-        if a_lim is None or a_mod is None or a_imp is None:
-            continue  # R4 speaks about a limit that is not handed on
+        if a_mod is None or a_imp is None:
+            continue
+        if a_lim is None:
+            # R4 speaks about a limit that is not handed on; here only: does the scan result depend on it instead?
+            named = {p_ for p_ in f.param_names if "limit" in p_}
+            if named:
+                d0 = Dependence(v.node, named)
+                depends = depends or bool((_loads(a_mod) | _loads(a_imp)) & d0.final - named)
+            continue
         lim_back = backward(v.node, _loads(a_lim))
         roots = set()
         for p_ in f.param_names:
@@ -294,6 +292,7 @@ def rule_r5(cx) -> None:
         if not tainted_args and not relevant:
             res.add("C09.R5", key, True, f"neither `{norm(a_mod, 30)}` nor `{norm(a_imp, 30)}` depends (by data or control) on `{', '.join(sorted(roots))}`", where(f, call0), kind="flow")
             continue
+        depends = True
         # units to tabulate: the statement in which the limit meets scan data, with the limit-conditionals around it
         units: list[tuple[ast.stmt, dict[str, str]]] = []
         for st, tg in relevant:
@@ -329,6 +328,7 @@ def rule_r5(cx) -> None:
             else:
                 res.add("C09.R5", skey, verdict, detail, where(shown, unit), kind="decision-table")
 
+    return depends
 
 def _tabulate_unit(cx, entry: FuncInfo, f: FuncInfo, v: FuncInfo, unit: ast.stmt, judged: dict[str, str]) -> tuple[bool | None, str]:
     """Tabulates a statement that makes the module / import list depend on the limit: what it withholds must be invisible in the quotient."""
